@@ -197,6 +197,8 @@ def formatter_verdict_source(prog, cname) -> Tuple[bool, str, int]:
 FILES = {
     "clean.c": "int a;\n", "notice.c": "int a; @N\n", "error.h": "@E\n", "mixed.c": "@N then @E\n",
     "notice2.h": "@N @N\n", "errors2.c": "@E @E\n", "fatal_l.c": "@L\n", "fatal_p.h": "@E @F\n",
+    # a source and its header share the stem: nothing may be keyed by File.name
+    "twin.c": "@E\n", "twin.h": "int a;\n",
 }
 CORE = ("clean.c", "notice.c", "error.h", "mixed.c")
 FATAL = ("fatal_l.c", "fatal_p.h")
